@@ -27,9 +27,11 @@ def model (args : List String) : Option String :=
     | some st => pure s!"inv=0 read=- status={st} body=- flushed=0"
     | none =>
       let a3 : Option Bool := match rest with | [_, "on"] => some true | [_, "off"] => some false | _ => none
-      let cfg : Cfg := { access := acc == "1", access3 := a3, processable := proc == "1", limit := limit, reject := act == "R",
-                         p3 := fun code => if code == 404 then some ⟨"deny", 406⟩ else if xbad == "1" then some ⟨"deny", 407⟩ else none,
-                         p4 := fun b => if Coraza.Op.isInfixB bad b then some ⟨"deny", 502⟩ else none }
+      -- "observe": the transaction runs under DetectionOnly from phase 1 on (generated with response access off): no rule interrupts
+      let observe := rb == "observe"
+      let cfg : Cfg := { access := acc == "1" && !observe, access3 := if observe then none else a3, processable := proc == "1", limit := limit, reject := act == "R",
+                         p3 := fun code => if observe then none else if code == 404 then some ⟨"deny", 406⟩ else if xbad == "1" then some ⟨"deny", 407⟩ else none,
+                         p4 := fun b => if !observe && Coraza.Op.isInfixB bad b then some ⟨"deny", 502⟩ else none }
       let s := runHandler cfg ops
       let rd := handlerBody body true 16
       pure s!"inv=1 read={Bytes.toField rd} status={clientStatus s} body={Bytes.toField s.downBody} flushed={if s.downFlushes > 0 then 1 else 0}"
